@@ -5,6 +5,7 @@ CONSTANTS
   Origins = {0, 1, 2, 3, 4, 5, 6, 7}
   OverflowChecks = TRUE
   RelaxEmpty = TRUE
+  Prefill = FALSE
   Script <- Script_2p2c
 INIT MCInit
 NEXT MCNext
